@@ -386,3 +386,64 @@ func verifC09Same(a, b map[string]string, label string) {
 
 func VerifC09Quick()    { verifC09(2) }
 func VerifC09Thorough() { verifC09(3) }
+
+// verifC09TwoRequests: a transaction carrying two contract requests, each charging its own fee
+// (0..2): it verifies exactly when the fee output covers the SUM of what the requests use.
+func verifC09TwoRequests() {
+	vrt.InitPkg("github.com/xuperchain/xupercore/kernel/contract/manager")
+	vrt.InitPkg("github.com/xuperchain/xupercore/kernel/contract/kernel")
+	e := vkit.NewEnv("c09r", vkit.Genesis("0", "9", "5"), nil)
+	st := vcrypto.Ideal([]string{"A", "B", "C"})
+	vrt.CryptoClient = st
+	s, sc := e.NewStateCtx("live", st, verifACL{})
+	mgr, err := contract.CreateManager("default", &contract.ManagerConfig{Basedir: "/verifmem/c09r/contract", BCName: "c09r", Core: verifCore{},
+		XMReader: s.CreateXMReader(), Config: &contract.ContractConfig{LogDriver: vlog.Nop{}, Xkernel: contract.XkernelConfig{Enable: true, Driver: "default"}}})
+	vrt.Assert(err == nil, "contract-manager-created")
+	if err != nil {
+		return
+	}
+	sc.ContractMgr = mgr
+	vrt.Assert(s.Play(e.Root.Blockid) == nil, "genesis-plays")
+	fees := []int64{int64(vrt.Choice("fee-1", 3)), int64(vrt.Choice("fee-2", 3))}
+	for i, name := range []string{"one", "two"} {
+		i, name := i, name
+		mgr.GetKernRegistry().RegisterKernMethod("$c09r", name, func(ctx contract.KContext) (*contract.Response, error) {
+			if err := ctx.Put("c09r", []byte(name), []byte("v")); err != nil {
+				return nil, err
+			}
+			ctx.AddResourceUsed(contract.Limits{XFee: fees[i]})
+			return &contract.Response{Status: 200}, nil
+		})
+	}
+	chain := &Chain{ctx: &common.ChainCtx{BCName: "c09r", Ledger: e.L, State: s, Contract: mgr, Crypto: st}, log: vlog.Nop{}}
+	chain.ctx.XLog = vlog.Nop{}
+	chain.ctx.Timer = timer.NewXTimer()
+	rctx := &xctx.BaseCtx{XLog: vlog.Nop{}, Timer: timer.NewXTimer()}
+	reqs := []*protos.InvokeRequest{{ModuleName: "xkernel", ContractName: "$c09r", MethodName: "one"}, {ModuleName: "xkernel", ContractName: "$c09r", MethodName: "two"}}
+	resp, perr := chain.PreExec(rctx, reqs, "A", nil)
+	vrt.Assert(perr == nil, "pre-execution-succeeds")
+	if perr != nil {
+		return
+	}
+	used := fees[0] + fees[1]
+	vrt.Assert(resp.GasUsed == used, "reported-gas-is-the-sum-over-the-requests")
+	pay := int64(vrt.Choice("pay", 6))
+	tx := &lpb.Transaction{Version: 3, Initiator: "A", Nonce: "n", Timestamp: 7, Desc: []byte("c09r"),
+		ContractRequests: resp.Requests, TxInputsExt: resp.Inputs, TxOutputsExt: resp.Outputs,
+		TxInputs: []*protos.TxInput{vkit.In(e.RootTx.Txid, 0, "A", big.NewInt(9))}}
+	if pay > 0 {
+		tx.TxOutputs = append(tx.TxOutputs, vkit.Out("$", big.NewInt(pay), 0))
+	}
+	tx.TxOutputs = append(tx.TxOutputs, vkit.Out("A", big.NewInt(9-pay), 0))
+	digest, derr := txhash.MakeTxDigestHash(tx)
+	vrt.Assert(derr == nil, "digest-computed")
+	tx.InitiatorSigns = []*protos.SignatureInfo{{PublicKey: "K0", Sign: st.Sign(0, digest)}}
+	tx.Txid, _ = txhash.MakeTransactionID(tx)
+	ok, verr := s.VerifyTx(tx)
+	accepted := ok && verr == nil
+	vrt.Cover("underpaying-rejected", !accepted)
+	vrt.Cover("paying-accepted", accepted)
+	vrt.Assert(accepted == (pay >= used), "transaction-verifies-iff-it-pays-for-the-sum-of-its-requests")
+}
+
+func VerifC09TwoRequests() { verifC09TwoRequests() }
